@@ -38,6 +38,19 @@ type Query {
   ghost: String
   countdown(n: Int): String
   search(opts: Opts): String
+  account: Account
+  member: Node
+}
+
+type Account {
+  id: ID
+  name: String
+}
+
+type Member implements Node @go(type: "zoo.Person") {
+  id: ID
+  name: String
+  since: Int
 }
 
 input Opts {
@@ -204,6 +217,19 @@ func (q *Query) Box(in *BoxIn) string {
 	return fmt.Sprintf("%s%v", in.Name, in.D)
 }
 
+// Person backs TWO object types: Account (plain, under an object-typed field) and Member (implements Node, bound with @go).
+type Person struct {
+	ID    string
+	Name  string
+	Since int
+}
+
+// Account returns a Person as an Account.
+func (q *Query) Account() *Person { return &Person{ID: "p1", Name: "pat", Since: 2001} }
+
+// Member returns a Person under the interface Node: it is a Member there.
+func (q *Query) Member() interface{} { return &Person{ID: "p2", Name: "mo", Since: 2010} }
+
 // Search takes an input object (unregistered: a map) whose fields have object and list defaults.
 func (q *Query) Search(opts map[string]interface{}) string {
 	called("Query.Search")
@@ -351,6 +377,9 @@ var Requests = []struct {
 	{`{ add(a: 1, b: 2) }`, nil},
 	{`{ box(in: {d: [1, 2], name: "n"}) }`, nil},
 	{`{ ghost name }`, nil},
+	{`{ account { id name } }`, nil},
+	{`{ member { __typename id ... on Member { name since } } }`, nil},
+	{`{ account { __typename name } member { __typename ... on Member { since } } }`, nil},
 	{`{ search(opts: {}) }`, nil},
 	{`{ search(opts: {text: "x", page: {size: 3}}) s2: search(opts: {any: [{}]}) }`, nil},
 	{`query($o: Opts = {text: "d"}) { search(opts: $o) }`, nil},
